@@ -247,7 +247,22 @@ func seriesEqual(a, b *wt.TimeSeries) string {
 	for j := range a.Values() {
 		x, y := float64(a.Values()[j]), float64(b.Values()[j])
 		if !(math.IsNaN(x) && math.IsNaN(y)) && math.Float64bits(x) != math.Float64bits(y) {
-			return fmt.Sprintf("slot %d (t=%d): %v vs %v", j, int64(a.FromTime())+int64(j)*int64(a.Step()), x, y)
+			return fmt.Sprintf("slot %d (t=%d): %v vs %v (bits %016x vs %016x)", j, int64(a.FromTime())+int64(j)*int64(a.Step()), x, y, math.Float64bits(x), math.Float64bits(y))
+		}
+	}
+	return ""
+}
+
+// seriesEqualNumeric is seriesEqual with IEEE equality for the values (+0 equals -0; NaN matches NaN): the relation the
+// copy commands themselves use to decide whether a destination slot already holds the source's value.
+func seriesEqualNumeric(a, b *wt.TimeSeries) string {
+	msg := seriesEqual(a, b)
+	if msg == "" || a == nil || b == nil || len(a.Values()) != len(b.Values()) || a.FromTime() != b.FromTime() || a.Step() != b.Step() {
+		return msg
+	}
+	for j := range a.Values() {
+		if !valEq(float64(a.Values()[j]), float64(b.Values()[j])) {
+			return msg
 		}
 	}
 	return ""
